@@ -8,13 +8,17 @@ def run(tier, seed, replay=None):
     ck = vlib.Check("C15", tier, seed, "model_checking")
     binary = vlib.build_harness()
     # exhaustive model of doClose against explicit syncs, the watcher and its goroutines, the distributor and other closers
-    big = dict(Closers="{1,2,3}", NG=2, NE=2, FIXED=True, ORDER='"code"', NR=1, REGSEL='"distDone"') if tier == "quick" else dict(Closers="{1,2,3}", NG=3, NE=2, FIXED=True, ORDER='"code"', NR=2, REGSEL='"distDone"')
+    big = dict(Closers="{1,2,3}", NG=2, NE=2, FIXED=True, ORDER='"code"', NR=1, REGSEL='"distDone"', NESTED=False, EXPMU='"released"') if tier == "quick" else dict(Closers="{1,2,3}", NG=3, NE=2, FIXED=True, ORDER='"code"', NR=2, REGSEL='"distDone"', NESTED=False, EXPMU='"released"')
     m = vlib.tlc("SubscriberClose", ("sc.cfg", vlib.cfg_text(big, ["NoPanic", "CloseIsFinal", "RefusedOnlyWhenGone"], properties=["QuietAfterClose"])), timeout=3000, tag="c15mc", deadlock=True)
     ck.add_tlc("SubscriberClose", m, "every interleaving of 3 Close callers with 2 explicit syncs, the watcher, 2-3 announcement goroutines and the distributor: no send on a closed "
                "channel, Close is final, nothing happens after it returned, no deadlock (TLC deadlock check on)")
-    for name, cc, want in (("pinned doClose (no wait for the distributor) must violate CloseIsFinal", dict(Closers="{1}", NG=1, NE=1, FIXED=False, ORDER='"code"', NR=0, REGSEL='"distDone"'), "CloseIsFinal"),
-                           ("a registration falling back on the closing channel must violate RefusedOnlyWhenGone", dict(Closers="{1}", NG=1, NE=1, FIXED=True, ORDER='"code"', NR=1, REGSEL='"closing"'), "RefusedOnlyWhenGone"),
-                           ("closing inEvents before asyncWG.Wait must violate NoPanic", dict(Closers="{1}", NG=1, NE=1, FIXED=True, ORDER='"events-first"', NR=0, REGSEL='"distDone"'), "NoPanic")):
+    nm = vlib.tlc("SubscriberClose", ("scn.cfg", vlib.cfg_text(dict(big, NESTED=True, NR=0, NG=1 if tier == "quick" else 2), ["NoPanic", "CloseIsFinal"], properties=["QuietAfterClose"])), timeout=3000, tag="c15mcn", deadlock=True)
+    ck.add_tlc("SubscriberClose/nested", nm, "explicit sync 2 is called from inside the block hook of explicit sync 1, which waits for it there, at every point of 3 concurrent Close calls: no deadlock")
+    shutil.rmtree(nm.workdir, ignore_errors=True)
+    for name, cc, want in (("pinned doClose (no wait for the distributor) must violate CloseIsFinal", dict(Closers="{1}", NG=1, NE=1, FIXED=False, ORDER='"code"', NR=0, REGSEL='"distDone"', NESTED=False, EXPMU='"released"'), "CloseIsFinal"),
+                           ("expSyncMutex held for the rest of doClose must deadlock with a sync called from a block hook", dict(Closers="{1}", NG=1, NE=2, FIXED=True, ORDER='"code"', NR=0, REGSEL='"distDone"', NESTED=True, EXPMU='"held"'), "deadlock"),
+                           ("a registration falling back on the closing channel must violate RefusedOnlyWhenGone", dict(Closers="{1}", NG=1, NE=1, FIXED=True, ORDER='"code"', NR=1, REGSEL='"closing"', NESTED=False, EXPMU='"released"'), "RefusedOnlyWhenGone"),
+                           ("closing inEvents before asyncWG.Wait must violate NoPanic", dict(Closers="{1}", NG=1, NE=1, FIXED=True, ORDER='"events-first"', NR=0, REGSEL='"distDone"', NESTED=False, EXPMU='"released"'), "NoPanic")):
         v = vlib.tlc("SubscriberClose", ("scv.cfg", vlib.cfg_text(cc, ["NoPanic", "CloseIsFinal", "RefusedOnlyWhenGone"])), workers=2, timeout=600, tag="c15v", deadlock=True)
         ck.cov["tlc_runs"].append({"name": name, "violated": v.violated})
         if v.violated != want:
